@@ -1112,6 +1112,7 @@ def ctrl10(ctx) -> List[Ob]:
         else:
             out.append(unresolved("CTRL-10", m.qualname, "table rewritten", ctx.where(m), f"the way {tbl_name} is built is not understood by the checker"))
         return out
+    merged_both = False
     for s in stores:
         skey = " ".join(A.unparse(s).split()) + " @ " + ("removed" if _under_not_in(m.node, s, newp) else "kept")
         where = ctx.where(m, s)
@@ -1137,6 +1138,35 @@ def ctrl10(ctx) -> List[Ob]:
         if not olddef_ok:
             out.append(bad("CTRL-10", m.qualname, skey, where, f"entries are copied from {oldtbl}, which is not the block's own value table"))
             continue
+        # one store behind an if / else that only chooses the value (`new = target` | `new = next(iter(diff))`):
+        # read as the two stores it abbreviates
+        if isinstance(s.value, ast.Name) and not any(isinstance(a, ast.If) and isinstance(a.test, ast.Compare) and A.unparse(a.test.comparators[0]) == newp for a in A.ancestors(s)):
+            vdefs = [d for d in cfg.reaching_defs(s, s.value.id) if d.stmt is not None and _assign_parts(d.stmt) is not None]
+            sides = {(_under_not_in(m.node, d.stmt, newp)): d for d in vdefs}
+            in_test = [d for d in vdefs if any(isinstance(a, ast.If) and isinstance(a.test, ast.Compare) and A.unparse(a.test.comparators[0]) == newp for a in A.ancestors(d.stmt))]
+            if len(vdefs) == 2 and len(in_test) == 2 and set(sides) == {True, False}:
+                guarded2 = any(isinstance(a, ast.If) and isinstance(a.test, ast.Compare) and len(a.test.ops) == 1 and isinstance(a.test.ops[0], ast.Eq) and {A.unparse(a.test.left), A.unparse(a.test.comparators[0])} == {v, tgt} for a in A.ancestors(s))
+                kept_v = A.unparse(_assign_parts(sides[False].stmt)[1])
+                rem_v = _assign_parts(sides[True].stmt)[1]
+                ok_rem = False
+                if "next(iter(" in A.unparse(rem_v):
+                    src = A.unparse(rem_v)[len("next(iter("):-2]
+                    for d2 in cfg.reaching_defs(sides[True].stmt, src):
+                        ap2 = _assign_parts(d2.stmt) if d2.stmt is not None else None
+                        if ap2 and "difference" in A.unparse(ap2[1]) and newp in A.unparse(ap2[1]) and "_jump_targets" in A.unparse(ap2[1]):
+                            t2 = A.unparse(ap2[1])
+                            ok_rem = t2.index(newp) < t2.index("_jump_targets")
+                base_key = " ".join(A.unparse(s).split())
+                if not guarded2:
+                    out.append(bad("CTRL-10", m.qualname, base_key + " @ both", where, f"entry copied without the test '{v} == {tgt}': entries of other targets are rewritten too"))
+                elif kept_v not in (v, tgt):
+                    out.append(bad("CTRL-10", m.qualname, base_key + " @ kept", where, f"entries of a target that stays a successor are rewritten to {kept_v}"))
+                elif not ok_rem:
+                    out.append(bad("CTRL-10", m.qualname, base_key + " @ removed", where, f"entries of a target that is no longer a successor get the value {A.unparse(rem_v)[:40]}, which is not the single new target"))
+                else:
+                    out.append(ok("CTRL-10", m.qualname, base_key + " @ both", where, "kept targets keep their entries, entries of the removed target go to the one new target; one store behind the choice"))
+                merged_both = True
+                continue
         val = A.unparse(s.value)
         removed = _under_not_in(m.node, s, newp)
         guarded = any(isinstance(a, ast.If) and {A.unparse(a.test.left), A.unparse(a.test.comparators[0])} == {v, tgt} for a in A.ancestors(s) if isinstance(a, ast.If) and isinstance(a.test, ast.Compare) and len(a.test.ops) == 1 and isinstance(a.test.ops[0], ast.Eq))
@@ -1168,7 +1198,7 @@ def ctrl10(ctx) -> List[Ob]:
                 out.append(bad("CTRL-10", m.qualname, skey, where, f"entries of a target that stays a successor are rewritten to {val}"))
     # both arms exist
     kinds = {_under_not_in(m.node, s, newp) for s in stores}
-    if kinds != {True, False}:
+    if kinds != {True, False} and not merged_both:
         out.append(bad("CTRL-10", m.qualname, "both arms", ctx.where(m), "the table rewrite handles only " + ("removed" if True in kinds else "kept") + " targets: the other entries are dropped from the table"))
     return out
 
